@@ -122,6 +122,10 @@ class extract_visitor(NodeVisitor):
         body_start = self.make_flow('for', [cur])
         for nn, _idx in get_indexes_for_target(node.target, [], []):
             name = nn  # type: ast.Name # type: ignore[assignment]
+            if isinstance(name, (Attribute, Subscript)):
+                # 'for self.x in ...' binds no name; the target expression is read
+                self.visit_in_flow(name, body_start)
+                continue
             body_start.add_name(AssignedName(name.id, np(node.body[0]), np(name), node.iter))
         body = self.visit_in_flow(node.body, body_start)
         body_start.loop(body)
@@ -288,6 +292,9 @@ class extract_visitor(NodeVisitor):
             p = self.make_flow('comp', [p])
             for nn, _idx in get_indexes_for_target(g.target, [], []):
                 name = nn  # type: ast.Name # type: ignore[assignment]
+                if isinstance(name, (Attribute, Subscript)):
+                    self.visit_in_flow(name, p)
+                    continue
                 name.flow = pp  # type: ignore[attr-defined]
                 p.add_name(AssignedName(name.id, np(node), np(name), g.iter))
 
@@ -321,6 +328,8 @@ class extract_visitor(NodeVisitor):
             if it.optional_vars:
                 for nn, _idx in get_indexes_for_target(it.optional_vars, [], []):
                     name = nn  # type: ast.Name # type: ignore[assignment]
+                    if isinstance(name, (Attribute, Subscript)):
+                        continue
                     # visible to the following items, not only to the body
                     self.flow.add_name(AssignedName(name.id, get_expr_end(it.context_expr), np(name), node))
                 self.visit(it.optional_vars)
